@@ -420,6 +420,28 @@ def sb_two(i):
 sb_one.by_index = True
 sb_two.by_index = True
 
+# Stream B generator 2: the exhaustive tiny scope over a nested base tree (streamb_gen2.py, enumerated).
+# sb_nest = every case (C01); sb_nest_one = the one-sided cases (C03); sb_nest_two = the two-sided disjoint cases (C04);
+# in each enumeration every pair-history case precedes every triple-history case.
+from . import streamb_gen2 as SB2
+
+
+def sb_nest(i):
+    return SB2.case(i)
+
+
+def sb_nest_one(i):
+    return SB2.one(i)
+
+
+def sb_nest_two(i):
+    return SB2.two(i)
+
+
+sb_nest.by_index = True
+sb_nest_one.by_index = True
+sb_nest_two.by_index = True
+
 
 def _mk_sb_runner(prop):
     def runner(case, monitor):
